@@ -1,3 +1,5 @@
+import Rp2.Proofs.CliFiles
+import Rp2.Props.Tables.Types
 import Rp2.Proofs.ParseIds
 /-! # C12 — malformed or contradictory input is rejected, never silently processed
 "Accepted ⇒ valid": every row that the model's constructors accept satisfies each documented constraint, so each
@@ -33,4 +35,9 @@ theorem bad_row_aborts (cfg : Config) (asset : String) (acct : String → String
 /-- broken structure: an accepted sheet has a non-empty IN table (and every table was closed: `parseSheet` tests `cur`) -/
 theorem in_table_required (cfg : Config) (asset : String) (acct : String → String → Nat) (rows : List (List Cell)) (p : Parsed)
     (h : parseSheet cfg asset acct rows = .ok p) : p.ins ≠ [] := (parseSheet_ids cfg asset acct rows p h).1
+/-- command-line and input faults: exit status non-zero, nothing written -/
+theorem cli_fault_rejected (o : Cli.Options) (acctName holderOf : Nat → String) (cfgAssets : List String) (sheets : List Cli.AssetIn)
+    (h : Cli.OptionFault o acctName cfgAssets sheets) :
+    (Cli.run o acctName holderOf cfgAssets sheets).exit ≠ 0 ∧ (Cli.run o acctName holderOf cfgAssets sheets).files = [] := Cli.run_fault_rejected o acctName holderOf cfgAssets sheets h
+theorem type_table_agrees : Gen.types = Tables.allTypes.map Tables.modelRow := Tables.types_agree
 end Rp2.C12
